@@ -44,3 +44,10 @@ Q("maxlen-exact", "main.py", "    X: Deque[NDArrayFloat] = deque()\n", "    X: D
 
 # ---- USEFACT (round 5)
 M("usefact-allclose", "bfgsmats.py", "        return self.invMfactors[0].size != 1 or self.invMfactors[0][0, 0] != 0\n", "        return not np.allclose(self.invMfactors[0], 0.0)\n", ["USEFACT"], canary=True)
+
+# round 6: ANCHOR.  The pinned tree has the open finding (a rejected pair returns without storing the point); the
+# quiet twin shows the rule can be discharged, the mutant adds a second unanchored exit.
+Q("anchor-store-on-every-path", "bfgsmats.py",
+  "    if not is_update_X_and_G(xk, gk, X[-1], G[-1], eps):\n        return False\n\n    X.append(xk)\n",
+  "    accepted = is_update_X_and_G(xk, gk, X[-1], G[-1], eps)\n\n    X.append(xk)\n",
+  ["ANCHOR"], note="(not the package's semantics: for the rule only) every path stores the point")
